@@ -225,7 +225,7 @@ pub fn run(ctx: &mut Ctx) -> (&'static str, String, bool) {
     }
 
     // ---- random longer ASCII / Unicode strings ----------------------------------------------
-    let n = ctx.tier.pick(300_000u64, 6_000_000u64);
+    let n = ctx.tier.pick(600_000u64, 30_000_000u64);
     let base = ctx.rng.fork(16);
     let results: Vec<(Part, Vec<GameVersion>)> = (0u64..16)
         .into_par_iter()
